@@ -35,6 +35,7 @@ def gen_C03(ctx):
     out += st_spellings(ctx, ctx.n(4000, 200000), ["S", "P"], "c03-spell", group=1)
     out += st_builder(ctx, ctx.n(8000, 400000), ["S", "P", "CB", "M"], "c03-build")
     out += st_classes(ctx, ["S", "P"], "c03-cls") + st_classes_build(ctx, ["S", "P", "CB", "M"], "c03-clsb")
+    out += st_fmtlim(ctx, ctx.n(1500, 100000), ["S", "P"], "c03-fmtlim")
     out += st_scalars(["ns", "name", "version", "qvalue", "subpath"], step=1 if ctx.tier == "thorough" else 4099)
     if ctx.tier == "quick":
         out += st_scalars(["ns", "name", "version", "qvalue", "subpath"], limit=256)
@@ -67,6 +68,7 @@ def gen_C06(ctx):
     out += st_long(ctx, shapes, "c06-long", every=ctx.tier == "thorough") + st_long_api(ctx)
     out += st_huge(ctx)
     out += st_classes(ctx, shapes, "c06-cls") + st_classes_build(ctx, ["S", "P", "CB", "CO", "M"], "c06-clsb")
+    out += st_fmtlim(ctx, ctx.n(1000, 50000), shapes, "c06-fmtlim")
     out += [case("build S %s %s ck:-" % (hx("t"), hx("n")), "empty-checksum"),
             case("cksum text", "empty-checksum"), case("cksum rt;iter;algs", "empty-checksum"),
             case("build P Cargo %s ck:-;ck:ins.%s.-" % (hx("n"), hx("a")), "empty-checksum")]
@@ -344,6 +346,16 @@ def gen_C16(ctx):
             out.append(case("serde %s de %s" % (sh, hx(doc)), "de-other", doc=doc, shape=sh))
     for ident in IDENTS:
         out.append(case("serde P pt %s" % ident, "pt", ident=ident))
+    # values of serde's data model that are not JSON (serde::de::value deserializers): only string values may be
+    # accepted, exactly like parsing; byte strings that spell a PURL, chars, numbers, units, sequences are refused
+    sample = strings[::max(1, len(strings) // (400 if ctx.tier == "quick" else 20000))] + ["pkg:npm/foo@1.0", "pkg:t/n", "p", ""]
+    for s in sample:
+        for sh in ("S", "P"):
+            for kind in ("str", "string", "bstr", "cow"):
+                out.append(case("parse %s %s" % (sh, hx(s)), "de-reference", s=s, shape=sh))
+                out.append(case("serde %s dev %s %s" % (sh, kind, hx(s)), "dev-string", s=s, shape=sh, kind=kind, reference=len(out) - 1))
+            for kind in ("bytes", "bbytes", "char", "u64", "i64", "f64", "bool", "unit", "seq"):
+                out.append(case("serde %s dev %s %s" % (sh, kind, hx(s)), "dev-other", s=s, shape=sh, kind=kind))
     return out
 
 
